@@ -55,6 +55,8 @@ static const uint64_t g_hi[21] = {0ull, 9ull, 99ull, 999ull, 9999ull, 99999ull, 
 
 /* ---- vocabulary of the loop contracts (parsenumber.loops.json; they name locals of the lowered parseNumber) ------------ */
 #define OFF(p) ((size_t)__CPROVER_POINTER_OFFSET(p))
+/* inside a digit group the current character is a digit: the group ends exactly where the loop over it stops */
+#define AT_END_OR_DIGIT(p, end) (OFF(p) == (end) || (*(p) >= '0' && *(p) <= '9'))
 /* number of significant integer digits among [a0,k) */
 #define SIG(k) ((k) > g_lead ? (k) - g_lead : (size_t)0)
 #define IN_STR(p, lo, hi) (__CPROVER_same_object((p), g_str) && OFF(p) >= (lo) && OFF(p) <= (hi))
@@ -90,6 +92,7 @@ struct lit_info {
   _Bool pow10;      /* the leading non-zero digit is 1 and every other mantissa digit is 0: |v| is a power of ten */
   long p;           /* 10^p <= |v| < 10^(p+1) when nonzero */
   _Bool eneg, has_dot, has_e;
+  int32_t E;        /* value of the exponent digits (stops growing beyond 10^8) */
   unsigned nint, nfrac, nexp;
   _Bool f4_family;  /* the integer digits pass through 1844674407370955161 followed by a digit >= 6 (2^64 .. 2^64+3, and longer) */
 };
@@ -175,6 +178,17 @@ static void spec_scan(const char *s, size_t n, struct lit_info *o) {
   long lead_idx = !nonzero ? 0 : lead < a1 ? (long)(lead - a0) : (long)nint + (long)(lead - b0);
   g_pm = (long)nint - lead_idx - 1;
   E = g_E[c1];
+  /* what the cut looks like, stated once (checked here, then available to every later check without re-deriving it from
+   * the pass above: assert-then-assume of the same formula) */
+  {
+    _Bool post = a0 <= a1 && a1 <= b0 && b0 <= b1 && b1 <= c0 && c0 <= c1 && c1 <= n && b0 <= a1 + 1 && c0 <= b1 + 2 &&
+                 nint == a1 - a0 && nfrac == b1 - b0 && nexp == c1 - c0 && (has_dot == (b0 == a1 + 1)) && (has_dot || b1 == b0) &&
+                 (nonzero ? ((lead >= a0 && lead < a1) || (lead >= b0 && lead < b1)) : lead == PN_N + 8) &&
+                 (!nonzero || g_pm == (lead < a1 ? (long)(a1 - lead) - 1 : -(long)(lead - b0) - 1)) &&
+                 E >= 0 && g_E[c0] == 0;
+    CHECK(post, "reading of the literal: the groups are ordered and the leading digit lies in one of them");
+    __CPROVER_assume(post);
+  }
   o->lenient = first_ok && c1 == n;
   o->strict = o->lenient && nint + nfrac >= 1 && (!has_e || nexp >= 1);
   o->neg = neg;
@@ -184,7 +198,7 @@ static void spec_scan(const char *s, size_t n, struct lit_info *o) {
   o->nonzero = nonzero;
   o->pow10 = nonzero && lead_digit == 1 && !rest;
   o->p = g_pm + (eneg ? -(long)E : (long)E);
-  o->eneg = eneg; o->has_dot = has_dot; o->has_e = has_e;
+  o->eneg = eneg; o->has_dot = has_dot; o->has_e = has_e; o->E = E;
   o->nint = nint; o->nfrac = nfrac; o->nexp = nexp;
   o->f4_family = f4;
 }
@@ -199,9 +213,9 @@ static _Bool lit_int_fits(const struct lit_info *o) {
   return o->is_integer && !o->big && (!o->neg || o->V <= ((uint64_t)1 << 63));
 }
 /* decimal digits of an integral m > 0 held in a double (every 10^j, j <= 19, is an exact double; comparisons only) */
-static long spec_ndigits(double m) {
+static int spec_ndigits(double m) {
   static const double p10[20] = {1e0, 1e1, 1e2, 1e3, 1e4, 1e5, 1e6, 1e7, 1e8, 1e9, 1e10, 1e11, 1e12, 1e13, 1e14, 1e15, 1e16, 1e17, 1e18, 1e19};
-  long n = 0;
+  int n = 0;
   for (int j = 0; j < 20; j++) if (m >= p10[j]) n = j + 1;
   return n;
 }
@@ -268,33 +282,126 @@ struct pn_case {
   struct lit_info li;
   struct Number r;
 };
-/* a string of n <= PN_N symbolic non-NUL characters.  -DPN_HEAP: in a heap block of exactly n + 1 bytes (any read behind the
- * NUL is a pointer-check failure; used by the obligations about the scan itself); otherwise in a PN_N + 1 byte static buffer,
- * NUL-filled behind the string (much cheaper for the solver than an object of symbolic size) */
-static void pn_input(struct pn_case *c) {
-  size_t n = in_u16();
-  __CPROVER_assume(n <= PN_N);
+/* the block that holds a string of n characters.  -DPN_HEAP: a heap block of exactly n + 1 bytes (any read behind the NUL is a
+ * pointer-check failure; used by the obligations about the scan itself); otherwise a PN_N + 1 byte static buffer (much
+ * cheaper for the solver than an object of symbolic size; NUL-filled behind the string) */
+static char *pn_block(size_t n) {
 #ifdef PN_HEAP
   char *s = (char *)malloc(n + 1);
   __CPROVER_assume(s != 0);
-  for (unsigned i = 0; i < PN_N; i++)
-    if (i < n) { char ch = in_char(); __CPROVER_assume(ch != 0); s[i] = ch; }
-  s[n] = 0;
+  return s;
 #else
   static char buf[PN_N + 1];
-  char *s = buf;
+  (void)n;
+  return buf;
+#endif
+}
+#ifndef PN_GENERATIVE
+/* a string of n <= PN_N symbolic non-NUL characters, read by spec_scan */
+static void pn_input(struct pn_case *c) {
+  size_t n = in_u16();
+  __CPROVER_assume(n <= PN_N);
+  char *s = pn_block(n);
   for (unsigned i = 0; i <= PN_N; i++) {
     char ch = 0;
     if (i < n) { ch = in_char(); __CPROVER_assume(ch != 0); }
-    s[i] = ch;
+    if (i <= n) s[i] = ch;
   }
-#endif
   c->s = s;
   c->n = n;
   g_str = s;
   g_len = n;
   spec_scan(s, n, &c->li);
 }
+#else
+/* The same set of strings -- every string of n <= PN_N non-NUL characters -- produced the other way round: the cut
+ *   [0,a0) sign   [a0,a1) integer digits   '.'?   [b0,b1) fraction digits   ([eE][+-]?)?   [c0,c1) exponent digits   rest
+ * is chosen first and the characters are constrained to fit it, each group being maximal (the character behind a group does
+ * not continue it).  Every string has exactly one such cut, so nothing is excluded; what the cut says about each position is
+ * then known by construction instead of being re-derived from a scan, which is what makes PN_N = 64 affordable. */
+#pragma CPROVER check push
+#pragma CPROVER check disable "bounds"
+#pragma CPROVER check disable "pointer"
+#pragma CPROVER check disable "pointer-overflow"
+#pragma CPROVER check disable "pointer-primitive"
+#pragma CPROVER check disable "signed-overflow"
+#pragma CPROVER check disable "undefined-shift"
+#pragma CPROVER check disable "div-by-zero"
+static void pn_input(struct pn_case *c) {
+  typedef uint16_t pos_t;
+  struct lit_info *o = &c->li;
+  pos_t n = in_u16();
+  __CPROVER_assume(n <= PN_N);
+  _Bool has_sign = in_bool(), has_dot = in_bool(), has_e = in_bool(), has_esign = in_bool();
+  pos_t a0 = has_sign ? 1 : 0;
+  pos_t a1 = in_u16(), b1 = in_u16(), c1 = in_u16(), lead = in_u16();
+  pos_t b0 = has_dot ? a1 + 1 : a1;
+  pos_t c0 = !has_e ? b1 : has_esign ? b1 + 2 : b1 + 1;
+  __CPROVER_assume(a0 <= a1 && a1 <= PN_N && b0 <= b1 && b1 <= PN_N && c0 <= c1 && c1 <= n);
+  __CPROVER_assume(has_dot || b1 == b0);
+  __CPROVER_assume(has_e || (!has_esign && c1 == c0));
+  char *s = pn_block(n);
+  _Bool neg = 0, eneg = 0, rest = 0, f4 = 0, over = 0, lead_is_one = 0;
+  uint64_t S = 0;
+  int32_t E = 0;
+  g_S[0] = 0; g_over[0] = 0; g_E[0] = 0;
+  for (pos_t i = 0; i <= PN_N; i++) {
+    char ch = 0;
+    if (i < n) { ch = in_char(); __CPROVER_assume(ch != 0); }
+    _Bool dig = ch >= '0' && ch <= '9', dot = ch == '.', ee = ch == 'e' || ch == 'E', sg = ch == '+' || ch == '-';
+    uint8_t d = dig ? (uint8_t)(ch - '0') : 0u;
+    _Bool in_int = i >= a0 && i < a1, in_frac = i >= b0 && i < b1, in_exp = i >= c0 && i < c1;
+    if (i == 0) { __CPROVER_assume(sg == has_sign); neg = ch == '-'; }
+    if (in_int || in_frac || in_exp) __CPROVER_assume(dig);
+    if (i == a1) __CPROVER_assume(has_dot ? dot : (!dig && !dot));            /* behind the integer digits */
+    if (i == b1) __CPROVER_assume(has_e ? ee : (!dig && !ee));                 /* behind the fraction digits (or behind the integer digits, no '.') */
+    if (has_e && i == b1 + 1) { __CPROVER_assume(sg == has_esign); eneg = ch == '-'; } /* behind the exponent marker */
+    if (has_e && i == c1) __CPROVER_assume(!dig);                                /* behind the exponent digits */
+    /* the leading non-zero mantissa digit */
+    if ((in_int || in_frac) && i < lead) __CPROVER_assume(d == 0);
+    if (i == lead) { __CPROVER_assume((in_int || in_frac) && d != 0); lead_is_one = d == 1; }
+    if ((in_int || in_frac) && i > lead && d != 0) rest = 1;
+    /* what the digit groups denote */
+    if (in_int) {
+      _Bool carry = S > 1844674407370955161ull || (S == 1844674407370955161ull && d >= 6); /* S * 10 + d >= 2^64 */
+      if (carry && !over) f4 = S == 1844674407370955161ull;
+      if (carry) over = 1;
+      S = S * 10 + d;
+    }
+    if (in_exp && E <= 100000000) E = E * 10 + d;
+    if (i <= n) s[i] = ch;
+    g_S[i + 1] = S;
+    g_over[i + 1] = over;
+    g_E[i + 1] = E;
+  }
+  _Bool nonzero = lead <= PN_N;
+  __CPROVER_assume(nonzero || lead == PN_N + 8);
+  _Bool first_ok = a1 > a0 || has_dot; /* the character behind the sign is a digit or '.' */
+  pos_t nint = a1 - a0, nfrac = b1 - b0, nexp = c1 - c0;
+  g_a0 = a0; g_a1 = a1; g_b0 = b0; g_b1 = b1; g_c0 = c0; g_c1 = c1; g_lead = lead;
+  g_pm = !nonzero ? -1 : lead < a1 ? (long)(a1 - lead) - 1 : -(long)(lead - b0) - 1;
+  E = g_E[c1];
+  S = g_S[a1];
+  over = g_over[a1];
+  o->lenient = first_ok && c1 == n;
+  o->strict = o->lenient && nint + nfrac >= 1 && (!has_e || nexp >= 1);
+  o->neg = neg;
+  o->is_integer = first_ok && a1 == n && nint >= 1;
+  o->big = over;
+  o->V = S;
+  o->nonzero = nonzero;
+  o->pow10 = nonzero && lead_is_one && !rest;
+  o->p = g_pm + (eneg ? -(long)E : (long)E);
+  o->eneg = eneg; o->has_dot = has_dot; o->has_e = has_e; o->E = E;
+  o->nint = nint; o->nfrac = nfrac; o->nexp = nexp;
+  o->f4_family = f4;
+  c->s = s;
+  c->n = n;
+  g_str = s;
+  g_len = n;
+}
+#pragma CPROVER check pop
+#endif
 static void pn_call(struct pn_case *c, unsigned checks) {
   g_checks = checks;
   g_mf_calls = 0;
@@ -349,7 +456,9 @@ static void pn_check_floating(struct pn_case *c, unsigned checks) {
     if (checks & CK_MAG) {
       CHECK((g_mf_m != 0.0) == li->nonzero, "the mantissa handed to make_float is zero exactly when the literal is zero");
       if (g_mf_m != 0.0 && li->nonzero)
-        CHECK(spec_ndigits(g_mf_m) - 1 + (long)g_mf_e == li->p + CANARY_P(li->p),
+        /* digits(m) - 1 + e == p with p = pm +/- E, written as e == +/-E + (pm + 1 - digits(m)): the same shape as the
+         * routine's own sum, which spares the solver a cancellation */
+        CHECK(g_mf_e == (li->eneg ? -li->E : li->E) + ((int)g_pm + 1 - spec_ndigits(g_mf_m)) + CANARY_P(li->p),
               "mantissa x 10^exponent handed to make_float has the decimal magnitude of the literal (never a finite value of the wrong magnitude)");
     }
   }
@@ -407,6 +516,15 @@ static unsigned lit_run(unsigned checks) {
   __CPROVER_assume(!c.li.f4_family);
 #ifdef LIT_NONZERO
   __CPROVER_assume(c.li.nonzero); /* 0e999 -> inf is outside the stated range of C12 (v == 0): reported, not demanded */
+#endif
+#ifdef ABL1
+  __CPROVER_assume(c.li.nint <= 15);
+#endif
+#ifdef ABL2
+  __CPROVER_assume(!c.li.has_e);
+#endif
+#ifdef ABL3
+  __CPROVER_assume(!c.li.has_dot);
 #endif
 #ifdef LIT_SHAPE /* a family: the exponent form of an integer mantissa, e.g. 1000000000e-309 */
   __CPROVER_assume(!c.li.has_dot && c.li.has_e && c.li.nexp == 3);
